@@ -1048,6 +1048,12 @@ func (w *World) factsPerPred(b *ssa.BasicBlock) [][]Fact {
 // holdsOnAllPaths: pred(facts) holds at `at` directly, or on every incoming edge of its block
 // (recursively up to depth) when the block is a join.
 func (w *World) holdsOnAllPaths(at ssa.Instruction, pred func([]Fact) bool, depth int) bool {
+	return w.holdsOnAllPathsK(at, pred, depth, w.factsAt(at))
+}
+
+// holdsOnAllPathsK: `known` = the facts at the instruction the query started from (what is established about φ values
+// after their join is used for the value each predecessor contributes).
+func (w *World) holdsOnAllPathsK(at ssa.Instruction, pred func([]Fact) bool, depth int, known []Fact) bool {
 	if pred(w.factsAt(at)) {
 		return true
 	}
@@ -1059,16 +1065,43 @@ func (w *World) holdsOnAllPaths(at ssa.Instruction, pred func([]Fact) bool, dept
 	if len(b.Preds) < 2 {
 		if len(b.Preds) == 1 {
 			p := b.Preds[0]
-			return w.holdsOnAllPaths(p.Instrs[len(p.Instrs)-1], pred, depth-1)
+			return w.holdsOnAllPathsK(p.Instrs[len(p.Instrs)-1], pred, depth-1, known)
 		}
 		return false
 	}
+	here := known
 	for i, fs := range w.factsPerPred(b) {
+		// what is known here about a φ of this join holds, on the path through predecessor i, of the value that
+		// predecessor contributes (`err` tested after the two branches that each assigned it)
+		for _, ins := range b.Instrs {
+			ph, isPhi := ins.(*ssa.Phi)
+			if !isPhi || i >= len(ph.Edges) {
+				continue
+			}
+			rp := render(ph)
+			for _, f := range here {
+				if !strings.HasPrefix(f.Expr, rp+" ") {
+					continue
+				}
+				e := ph.Edges[i]
+				nf := Fact{Expr: renormCmp(render(e) + f.Expr[len(rp):]), If: f.If}
+				collectDeps(e, &nf)
+				if ex, isEx := e.(*ssa.Extract); isEx {
+					if c, isCall := ex.Tuple.(*ssa.Call); isCall {
+						nf.calls = append(nf.calls, c)
+					}
+				} else if c, isCall := e.(*ssa.Call); isCall {
+					nf.calls = append(nf.calls, c)
+				}
+				fs = append(fs, nf)
+				fs = append(fs, w.expandSummaries([]Fact{nf}, 0)...)
+			}
+		}
 		if pred(fs) {
 			continue
 		}
 		p := b.Preds[i]
-		if !w.holdsOnAllPaths(p.Instrs[len(p.Instrs)-1], pred, depth-1) {
+		if !w.holdsOnAllPathsK(p.Instrs[len(p.Instrs)-1], pred, depth-1, known) {
 			return false
 		}
 	}
